@@ -305,7 +305,9 @@ class HObj:
         self.absent = set()         # ... decided absent on this path
 
     def clone(self):
-        return HObj(self.cls, self.fields, self.lazy, self.name, self.prov, self.maybe)
+        o = HObj(self.cls, self.fields, self.lazy, self.name, self.prov, self.maybe)
+        o.absent = set(self.absent)
+        return o
 
 
 # ---------------------------------------------------------------- exceptions
